@@ -24,7 +24,8 @@ ASSUMPTIONS = [
     "removing a missing tier / renaming or replacing a missing name must raise (any exception) and change nothing",
     "tier objects handed to addTier/replaceTier stay as the caller made them (a textgrid edits its map, not its callers' tiers)",
 ]
-REQUIRED_CLASSES = ["map_bfs:indexed_insert_then_rename_or_replace", "map_bfs:rejected_duplicate", "tierwise:changed"]
+REQUIRED_CLASSES = ["map_bfs:indexed_insert_then_rename_or_replace", "map_bfs:rejected_duplicate", "tierwise:changed",
+                    "tierwise:insert_error_mode_at_interval_start", "tierwise:insert_error_mode_rejected"]
 
 NAMES = ["a", "b", "c", "d"]
 
@@ -262,7 +263,7 @@ def tierwise_cases(draw):
     ts = sorted({t for tr in spec["tiers"] for e in tr["entries"] for t in e[:-1]} | {spec["minT"], spec["maxT"]})
     mids = [(x + y) / 2 for x, y in zip(ts, ts[1:])]
     pick = st.sampled_from(ts + mids)
-    kind = draw(st.sampled_from(["crop", "erase", "insert", "edit", "crop"]))
+    kind = draw(st.sampled_from(["crop", "erase", "insert", "edit", "crop", "insert"]))
     op = {"kind": kind}
     if kind in ("crop", "erase"):
         a, b = draw(pick), draw(pick)
@@ -277,7 +278,10 @@ def tierwise_cases(draw):
             op.update(shrink=draw(st.booleans()))
     elif kind == "insert":
         op.update(s=draw(pick), d=draw(st.sampled_from([0.5, 0.125, 1.0, 0.3, 2.7])),
-                  mode=draw(st.sampled_from(["stretch", "split", "no_change"])))
+                  mode=draw(st.sampled_from(["stretch", "split", "no_change", "error", "default"])))
+        starts = sorted({e[0] for tr in spec["tiers"] if tr["type"] == "interval" for e in tr["entries"]})
+        if op["mode"] in ("error", "default") and starts and draw(st.booleans()):
+            op["s"] = draw(st.sampled_from(starts))  # on an interval's start: nothing straddles because of that interval
     else:
         op.update(offset=draw(st.one_of(st.sampled_from([0.0, 0.5, -0.5, 1.0, 0.3]), pick.map(lambda t: -t))))
     return {"tg": spec, "op": op}
@@ -296,12 +300,37 @@ def run_tierwise(case):
             f = lambda x: x.eraseRegion(op["a"], op["b"], doShrink=op["shrink"])
             ft = lambda x: x.eraseRegion(op["a"], op["b"], "truncate", op["shrink"])
         elif kind == "insert":
-            f = lambda x: x.insertSpace(op["s"], op["d"], op["mode"])
+            f = (lambda x: x.insertSpace(op["s"], op["d"])) if op["mode"] == "default" else (lambda x: x.insertSpace(op["s"], op["d"], op["mode"]))
         else:
             f = lambda x: x.editTimestamps(op["offset"], "silence")
         if kind != "erase":
             ft = f
-        res = f(tg)
+        if kind == "insert" and op["mode"] == "default":  # only the textgrid-level method has a default
+            ft = lambda x: x.insertSpace(op["s"], op["d"], "error")
+        if kind == "insert" and op["mode"] in ("error", "default"):
+            # 'error' (the default): rejected exactly when some tier rejects it
+            refusing = []
+            for t in spec["tiers"]:
+                try:
+                    ft(mk_tier(t))
+                except p.errors.PraatioException:
+                    refusing.append(t["name"])
+            try:
+                res = f(tg)
+            except p.errors.PraatioException as e:
+                if not refusing:
+                    raise Violation("not-tierwise", f"{kind} {op}: textgrid-level raised {type(e).__name__} although every tier accepts the call")
+                note_accept("insertSpace('error') rejected: a tier has an interval straddling the insertion point")
+                return {"classes": [kind, "insert_error_mode_rejected"], "nontrivial": True}
+            if refusing:
+                raise Violation("not-tierwise", f"{kind} {op}: textgrid-level accepted although tiers {refusing} reject the call")
+            if any(e[0] == op["s"] for t in spec["tiers"] if t["type"] == "interval" for e in t["entries"]):
+                extra_cl = ["insert_error_mode_at_interval_start"]
+            else:
+                extra_cl = ["insert_error_mode_accepted"]
+        else:
+            extra_cl = []
+            res = f(tg)
         if list(res.tierNames) != [t["name"] for t in spec["tiers"]]:
             raise Violation("tier-names", f"{kind}: {res.tierNames}")
         changed = False
@@ -318,7 +347,7 @@ def run_tierwise(case):
                             f"{[(t.minTimestamp, t.maxTimestamp) for t in res.tiers]}")
         if len(set(res.tierNames)) != len(res.tierNames):
             raise Violation("duplicate-names", str(res.tierNames))
-    cl = [kind] + (["changed"] if changed else []) + (["clean"] if clean else ["span_mismatch"])
+    cl = [kind] + (["changed"] if changed else []) + (["clean"] if clean else ["span_mismatch"]) + extra_cl
     return {"classes": cl, "nontrivial": changed}
 
 
